@@ -26,12 +26,33 @@ def faulty_case(draw):
     kinds.append("none_exit_walk")
   if descendants(spec["parent"], f):
     kinds.append("none_search_init_target")
+    kinds.append("none_search_target_parent")
   kind = draw(st.sampled_from(kinds))
+  # on the queued processor the event may also travel through the queue
+  via = draw(st.sampled_from(["dispatch", "next_rtc", "complete_circuit"]))
+  if kind == "none_search_target_parent":
+    # f answers the super-state probe with no status; one of its children is the target of a
+    # transition that has to climb from the target towards the source (not a local topology)
+    kids = [j for j in range(n) if spec["parent"][j] == f]
+    opts = []
+    for t in kids:
+      for x in range(n):
+        m = Model(spec)
+        m.start(x)
+        if m.cur != t and m.topology({"S": m.cur, "T": t}) in "efg":
+          opts.append((x, t))
+    if not opts:
+      kind = "init_self"
+    else:
+      x, t = draw(st.sampled_from(opts))
+      return {"spec": spec, "fault_state": f, "fault": kind, "bad_target": t, "reach": "dispatch",
+              "start": x, "host": draw(st.sampled_from(["plain", "instr", "queued"])), "via": via,
+              "variant": draw(st.sampled_from(["none_search", "none_search_set"]))}
   if kind == "none_exit_walk":
     # f returns no status for EXIT; an ancestor of f takes a transition while f is active
     return {"spec": spec, "fault_state": f, "fault": kind, "bad_target": draw(st.sampled_from(anc)),
             "reach": "dispatch", "start": f, "host": draw(st.sampled_from(["plain", "instr", "queued"])),
-            "target": draw(st.integers(0, n - 1))}
+            "target": draw(st.integers(0, n - 1)), "via": via}
   if kind == "none_search_init_target":
     # a proper descendant g of f answers the super-state probe with no status and is f's init target
     g = draw(st.sampled_from(descendants(spec["parent"], f)))
@@ -41,7 +62,7 @@ def faulty_case(draw):
     else:
       return {"spec": spec, "fault_state": f, "fault": kind, "bad_target": g, "reach": "dispatch",
               "start": draw(st.sampled_from(starts)), "host": draw(st.sampled_from(["plain", "instr", "queued"])),
-              "variant": draw(st.sampled_from(["none_search", "none_search_set"]))}
+              "variant": draw(st.sampled_from(["none_search", "none_search_set"])), "via": via}
   if kind == "init_self":
     bad = f
   elif kind == "init_ancestor":
@@ -65,7 +86,22 @@ def faulty_case(draw):
     else:
       start = draw(st.sampled_from(good))
   return {"spec": spec, "fault_state": f, "fault": kind, "bad_target": bad, "reach": reach,
-          "start": start, "host": draw(st.sampled_from(["plain", "instr", "queued"]))}
+          "start": start, "host": draw(st.sampled_from(["plain", "instr", "queued"])), "via": via}
+
+
+def send(chart, case, e):
+  """Hand the event to the processor: directly, or - on the queued processor - through its queue."""
+  via = case.get("via", "dispatch") if case["host"] == "queued" else "dispatch"
+  if via == "dispatch":
+    return chart.dispatch(e)
+  chart.post_fifo(e)
+  if via == "next_rtc":
+    return chart.next_rtc()
+  return chart.complete_circuit()
+
+
+def via_of(case):
+  return case.get("via", "dispatch") if case["host"] == "queued" else "dispatch"
 
 
 class C24(Prop):
@@ -76,13 +112,16 @@ class C24(Prop):
           "transition targets itself, one of its ancestors, or a state elsewhere in the forest "
           "(not nested inside it); or a state returns no status (None) when a user event is "
           "offered to it, for its exit event while an ancestor's transition walks out through it, or "
-          "for the super-state probe while it is the target of an initial transition. The fault is reached by start_at (the faulty state is the start state) or "
+          "for the super-state probe while it is the target of an initial transition, or for the super-state "
+          "probe while it is the PARENT of the target of a transition that climbs from the target towards the "
+          "source (Samek topologies e, f, g). The fault is reached by start_at (the faulty state is the start state) or "
           "by dispatch (the chart is started where the fault is not touched, then an event whose "
           "transition targets the faulty state - or, for the status fault, the offered event - is "
-          "dispatched), on the plain, instrumented and queued processors. Oracle: the call that "
+          "dispatched), on the plain, instrumented and queued processors; on the queued processor the event is "
+          "handed over by dispatch, or posted and run by next_rtc or by complete_circuit. Oracle: the call that "
           "reaches the fault raises HsmTopologyException before the call bound (20k top() calls / "
           "200k handler calls); a bound hit, any other exception, or a silent return is a failure (for the super-state-probe "
-          "fault termination - by the exception or normally - is required, nothing more). "
+          "fault of an init target termination - by the exception or normally - is required, nothing more). "
           "Non-trivial: the fault is reached through dispatch; distinct = distinct case digests.")
   assumptions = [
     "hang detection is a call-count bound enforced by a top()-counting subclass and the handlers",
@@ -109,6 +148,13 @@ class C24(Prop):
       spec["react"][a] = dict(spec["react"][a])
       spec["react"][a][ZS] = ["trans", case["target"]]
       must_raise = True
+    elif kind == "none_search_target_parent":
+      spec["faults"] = {str(f): case["variant"]}
+      model.start(case["start"])
+      rest = model.cur
+      spec["react"][rest] = dict(spec["react"][rest])
+      spec["react"][rest][ZS] = ["trans", case["bad_target"]]
+      must_raise = True
     else:
       g = case["bad_target"]
       spec["faults"] = {str(g): case["variant"]}
@@ -120,9 +166,9 @@ class C24(Prop):
       must_raise = False
     rt = chartgen.build(spec, decorate=spec["spy"])
     chart = hsmcheck.make_host(case["host"])
-    stats.case(case, True, ["fault_" + kind, "reach_dispatch", "host_" + case["host"]])
-    what = "%s (faulty state %s) on %s" % (kind, name_of(f if kind == "none_exit_walk" else case["bad_target"]),
-                                         case["host"])
+    stats.case(case, True, ["fault_" + kind, "reach_dispatch", "host_" + case["host"], "via_" + via_of(case)])
+    what = "%s (faulty state %s) on %s via %s" % (
+      kind, name_of(case["bad_target"] if kind == "none_search_init_target" else f), case["host"], via_of(case))
     try:
       chart.start_at(rt.fns[case["start"]])
     except HsmTopologyException:
@@ -132,7 +178,7 @@ class C24(Prop):
     except Exception as e:
       raise PropertyViolation("%s: start_at raised %s (%s)" % (what, type(e).__name__, e), "C24:wrong-exception")
     try:
-      chart.dispatch(Event(signal=signals[ZS]))
+      send(chart, case, Event(signal=signals[ZS]))
     except HsmTopologyException:
       return
     except HarnessBound as e:
@@ -141,14 +187,16 @@ class C24(Prop):
       raise PropertyViolation("%s: dispatch raised %s (%s), not HsmTopologyException" % (
         what, type(e).__name__, e), "C24:wrong-exception")
     if must_raise:
-      raise PropertyViolation("%s: the exit walk passed a state that returned no status for its exit "
-                              "event and dispatch returned normally (resting in %s)" % (what, chart.state_name),
-                              "C24:silent")
+      raise PropertyViolation("%s: a state that returned no status was consulted (%s) and the call returned "
+                              "normally (resting in %s)" % (
+                                what, "for its exit event, by the exit walk" if kind == "none_exit_walk" else
+                                "as the parent of the transition target, for the super-state probe",
+                                chart.state_name), "C24:silent")
 
   def check(self, case, stats):
     from miros.event import Event, signals
     from miros.hsm import HsmTopologyException
-    if case["fault"] in ("none_exit_walk", "none_search_init_target"):
+    if case["fault"] in ("none_exit_walk", "none_search_init_target", "none_search_target_parent"):
       return self.check_status_fault(case, stats)
     spec = copy.deepcopy(case["spec"])
     f, kind = case["fault_state"], case["fault"]
@@ -182,10 +230,11 @@ class C24(Prop):
     rt = chartgen.build(spec, decorate=spec["spy"])
     chart = hsmcheck.make_host(case["host"])
     stats.case(case, case["reach"] == "dispatch",
-               ["fault_" + kind, "reach_" + case["reach"], "host_" + case["host"]])
+               ["fault_" + kind, "reach_" + case["reach"], "host_" + case["host"], "via_" + via_of(case)])
     calls = [("start_at(%s)" % name_of(case["start"]), lambda: chart.start_at(rt.fns[case["start"]]))]
     for sig in events:
-      calls.append(("dispatch(%s)" % sig, (lambda s: lambda: chart.dispatch(Event(signal=signals[s])))(sig)))
+      calls.append(("dispatch(%s) via %s" % (sig, via_of(case)),
+                    (lambda s: lambda: send(chart, case, Event(signal=signals[s])))(sig)))
     # the faulty call is the last one, except start_at-reached init faults (the first)
     faulty_index = len(calls) - 1
     if case["reach"] == "start_at" and kind != "none_status":
